@@ -135,7 +135,40 @@ def run(ctx):
     representations(ctx)
     if len(ctx.violations) > 5:
         return
+    shared_arrays(ctx)
+    if len(ctx.violations) > 5:
+        return
     laws(ctx)
+
+
+def eval_shared(dgms, calls, single):
+    """a short history of calls on the SAME array objects (as any loop over flag combinations makes); every call
+    must return the definition's value for the numbers the caller put into the arrays"""
+    arrs = [arr(d) for d in dgms]
+    pe = common.pm("persistent_entropy").persistent_entropy
+    out = []
+    for keep, vinf, norm in calls:
+        with np.errstate(all="ignore"):
+            code = canon(call(pe, arrs[0] if single else arrs, keep_inf=keep, val_inf=vinf, normalize=norm))
+        out.append((code, spec_value(dgms, keep, vinf, norm)))
+    return out
+
+
+def shared_arrays(ctx):
+    r = ctx.rng
+    for _ in range(ctx.n(150, 2500)):
+        dgms = [gen_barcode(ctx, inf_p=0.5) for _ in range(r.randint(1, 3))]
+        single = len(dgms) == 1 and r.random() < 0.5
+        calls = [(r.random() < 0.5, None if r.random() < 0.2 else r.choice([0.5, 7.0, 100.0, float(r.randint(1, 30))]), r.random() < 0.5)
+                 for _ in range(r.randint(2, 4))]
+        res = eval_shared(dgms, calls, single)
+        bad = [i for i, (code, spec) in enumerate(res) if spec_disagrees(spec, code)]
+        ctx.test("shared_array_histories", not bad)
+        if bad:
+            ctx.violation("persistent_entropy differs from the definition at call %d of a history of calls on the same arrays: code=%r definition=%r"
+                          % (bad[0], res[bad[0]][0], res[bad[0]][1]),
+                          {"shared": True, "dgms": dgms, "calls": [list(c) for c in calls], "single": single}, found_input=True)
+            return
 
 
 def spec_value(dgms, keep, vinf, norm):
@@ -280,6 +313,11 @@ def laws(ctx):
 
 def replay(ctx, rep):
     c = rep["case"]
+    if c.get("shared"):
+        res = eval_shared(c["dgms"], [tuple(x) for x in c["calls"]], c["single"])
+        for i, (code, spec) in enumerate(res):
+            print("call", i, c["calls"][i], "code:", code, "definition:", spec)
+        return not any(spec_disagrees(spec, code) for code, spec in res)
     if "dgms" in c:
         code = canon(run_code(c["dgms"], c["keep_inf"], c["val_inf"], c["normalize"]))
         spec = spec_value(c["dgms"], c["keep_inf"], c["val_inf"], c["normalize"])
